@@ -29,80 +29,83 @@ def run(ctx) -> None:
 
 
 def _ordering_step(ctx, fi: FuncInfo) -> None:
+    """resolve_rule_references interpreted (sa.tabulate, Proxy) on stand-in collections: two plain rules, a correlation rule
+    over both, a correlation rule over that one, a correlation rule whose references come from its condition only (empty
+    rules list), an unrelated rule and a filter — in every document order (5040 orders would be too many: all orders of the
+    five related rules with the other two at fixed places). The resulting rule list must hold every rule once and each rule
+    behind all rules it refers to. Rule objects compare like SigmaRuleBase.__lt__ does ('is directly referenced by') so
+    that a comparison sort in the analysed code is followed faithfully."""
+    import itertools
+    from functools import reduce as _reduce
+    from ..tabulate import Proxy, call_method, Raised
     r, prog = ctx.r, ctx.prog
-    # last assignment to self.rules in resolve_rule_references
-    stores = [n for n in walk_no_nested(fi.node) if isinstance(n, ast.Assign) and any(unparse(t) == "self.rules" for t in n.targets)]
-    resolve_loops = [n for n in walk_no_nested(fi.node) if isinstance(n, ast.For) and any(
-        isinstance(c, ast.Call) and call_name(c).endswith(".resolve_rule_references") for c in ast.walk(n))]
-    if not resolve_loops:
-        raise AnalysisError(f"{fi.qual}: loop resolving the correlation rules' references not found")
-    after = [s for s in stores if s.lineno > resolve_loops[0].lineno]
-    sorts = [c for c in walk_no_nested(fi.node) if isinstance(c, ast.Call) and (call_name(c) in ("sorted", "min", "max", "heapq.nsmallest") or call_name(c).endswith(".sort"))]
-    for c in sorts:
-        loc = f"{fi.module.relpath}:{c.lineno}"
-        key = next((kw.value for kw in c.keywords if kw.arg == "key"), None)
-        if key is None:
-            r.violation("C09.R1", fi.qual, short(c, 100),
-                        "comparison sort over rules uses SigmaRuleBase.__lt__ ('is directly referenced by'), which is neither transitive nor total: "
-                        "the result is not a topological order and depends on list length and position (36 of 120 orders of a 5-document set fail)", loc)
-        else:
-            body = key.body if isinstance(key, ast.Lambda) else key
-            calls = [x for x in ast.walk(body) if isinstance(x, ast.Call) and call_name(x) not in ("isinstance", "len", "bool", "int", "type", "hasattr")]
-            if not calls:
-                r.violation("C09.R1", fi.qual, short(c, 120),
-                            "the sort key is a constant-time predicate of the rule itself: it cannot rank chains of correlation rules (c2 → c1 → a), so an outer correlation rule can still precede the inner one", loc)
-            else:
-                raise AnalysisError(f"{fi.qual}: keyed sort {short(c, 80)} — cannot decide whether the key is a reference depth")
-    if sorts:
-        return
-    # depth-first post-order
-    visits = [f for f in prog.funcs.values() if f.qual.startswith(fi.qual + ".<locals>.")]
-    ok = False
-    for v in visits:
-        params = [p for p in v.params()]
-        if len(params) != 1:
+    spec = {"a": (), "b": (), "c1": ("a", "b"), "c2": ("c1",), "c3": ("a",)}
+
+    class _Base:
+        def __init__(self, n):
+            self.n, self.resets, self.referenced_rules, self._backreferences, self.name, self.id = n, 0, [], [], n, None
+        def reset_references(self):
+            self.resets += 1
+            self._backreferences = []
+        def __lt__(self, other):  # SigmaRuleBase.__lt__: self is referenced by other
+            return any(ref.rule is self for ref in getattr(other, "referenced_rules", []))
+        def __repr__(self): return self.n
+
+    class SigmaRule(_Base):
+        pass
+
+    class SigmaCorrelationRule(_Base):
+        def __init__(self, n, targets):
+            super().__init__(n)
+            self.targets = targets
+            self.rules = [] if n == "c3" else [SimpleRef(t) for t in targets]   # c3: references from an extended condition only
+        def resolve_rule_references(self, coll):
+            byname = {x.n: x for x in coll.rules if isinstance(x, _Base)}
+            self.referenced_rules = [SimpleRef(t, byname[t]) for t in self.targets]
+
+    class SimpleRef:
+        def __init__(self, reference, rule=None): self.reference, self.rule = reference, rule
+
+    class SigmaFilter:
+        def __init__(self): self.seen = []
+        def apply_on_rule(self, rule):
+            self.seen.append(rule)
+            return rule
+        def __repr__(self): return "filter"
+
+    env = {"SigmaRule": SigmaRule, "SigmaCorrelationRule": SigmaCorrelationRule, "SigmaFilter": SigmaFilter, "reduce": _reduce, "cast": lambda t, v: v}
+    IK = {"max_steps": 20000}
+    bad: list[str] = []
+    n = 0
+    for perm in itertools.permutations(sorted(spec)):
+        n += 1
+        objs = {k: (SigmaCorrelationRule(k, v) if v else SigmaRule(k)) for k, v in spec.items()}
+        flt, z = SigmaFilter(), SigmaRule("z")
+        order = [objs[k] for k in perm]
+        docs = order[:2] + [flt] + order[2:4] + [z] + order[4:]
+        me = Proxy(prog, COLL, env, {"rules": list(docs), "filters": [], "errors": [], "ids_to_rules": {}, "names_to_rules": {}}, interp_kwargs=IK)
+        try:
+            call_method(prog, COLL, fi.name, me, env, interp_kwargs=IK)
+        except Raised as ex:
+            bad.append(f"document order {list(perm)}: raises {ex}")
             continue
-        p = params[0]
-        rec = [c for c in walk_no_nested(v.node) if isinstance(c, ast.Call) and call_name(c) == v.name]
-        apps = [c for c in walk_no_nested(v.node) if isinstance(c, ast.Call) and call_name(c).endswith(".append") and c.args and unparse(c.args[0]) == p]
-        loops = [n for n in walk_no_nested(v.node) if isinstance(n, ast.For) and unparse(n.iter) == f"{p}.referenced_rules"]
-        if rec and apps and not loops:
-            other = [n for n in walk_no_nested(v.node) if isinstance(n, ast.For) and any(c is x for c in rec for x in ast.walk(n))]
-            if other:
-                r.violation("C09.R1", v.qual, f"for … in {unparse(other[0].iter)}", "the ordering traversal does not follow rule.referenced_rules (the reference relation as resolved — it also holds the references taken from an extended condition when no rules list is given): such a correlation rule is no longer moved behind the rules it refers to", f"{v.module.relpath}:{other[0].lineno}")
-                ok = True
+        out = list(me.rules)
+        names = [getattr(x, "n", repr(x)) for x in out]
+        if sorted(names) != sorted(list(spec) + ["z"]):
+            bad.append(f"document order {[repr(d) for d in docs]}: rule list {names} is not the rules of the collection (filters taken out), each once")
             continue
-        if not (rec and apps and loops):
-            continue
-        loc = f"{v.module.relpath}:{v.node.lineno}"
-        rec_in_loop = all(any(c is x for x in ast.walk(loops[0])) for c in rec)
-        rec_on_rule = all(c.args and unparse(c.args[0]).endswith(".rule") for c in rec)
-        post = all(a.lineno > loops[0].end_lineno for a in apps) and len(apps) == 1
-        visited_guard = any(isinstance(n, ast.If) and isinstance(n.body[0], ast.Return) for n in v.node.body)
-        if rec_in_loop and rec_on_rule and post and visited_guard:
-            out_list = unparse(apps[0].func.value)  # type: ignore[attr-defined]
-            drive = [n for n in walk_no_nested(fi.node) if isinstance(n, ast.For) and unparse(n.iter) == "self.rules"
-                     and any(isinstance(c, ast.Call) and call_name(c) == v.name for c in ast.walk(n))]
-            final = [s for s in after if unparse(s.value) == out_list]
-            if drive and final and final[-1].lineno > drive[0].lineno:
-                r.ok("C09.R1", fi.qual, f"depth-first post-order `{v.name}` over referenced_rules, driven over self.rules in document order; self.rules = {out_list}", loc)
-                ok = True
-            else:
-                r.violation("C09.R1", fi.qual, f"self.rules = {out_list}", "the ordered list is not assigned back to self.rules after visiting every rule", loc)
-                ok = True
-        elif rec and apps and not post:
-            r.violation("C09.R1", v.qual, short(apps[0], 80), "the rule is emitted before the rules it refers to (pre-order): referenced rules end up after their correlation rule", loc)
-            ok = True
-    if ok:
-        return
-    if any("TopologicalSorter" in unparse(n) for n in walk_no_nested(fi.node)):
-        r.ok("C09.R1", fi.qual, "graphlib.TopologicalSorter over the reference relation", fi.loc)
-        return
-    if not after or all(isinstance(s.value, (ast.ListComp, ast.IfExp)) for s in after):
-        r.violation("C09.R1", fi.qual, "ordering of self.rules after reference resolution",
-                    "no ordering step: rules are converted in document order, so a correlation rule listed before a rule it refers to finds no conversion result", fi.loc)
-        return
-    raise AnalysisError(f"{fi.qual}: ordering step not recognised")
+        pos = {nm: i_ for i_, nm in enumerate(names)}
+        late = [(k, t) for k, ts in spec.items() for t in ts if pos[t] > pos[k]]
+        if late:
+            bad.append(f"document order {[repr(d) for d in docs]}: result {names} has {late[0][0]} before {late[0][1]}, which it refers to")
+    if bad:
+        sorts = [c for c in walk_no_nested(fi.node) if isinstance(c, ast.Call) and (call_name(c) in ("sorted", "min", "max", "heapq.nsmallest") or call_name(c).endswith(".sort"))]
+        why = "the rule list is not replaced by a topological order of the reference relation (referenced rules first, transitively; the relation is rule.referenced_rules as resolved — it also holds the references taken from an extended condition when no rules list is given)"
+        if sorts:
+            why += "; a comparison sort over rules uses SigmaRuleBase.__lt__ ('is directly referenced by'), which is neither transitive nor total, and a key that is a constant-time predicate of the rule cannot rank chains of correlation rules (c2 → c1 → a)"
+        r.violation("C09.R1", fi.qual, f"ordering of self.rules after reference resolution: {bad[0]}", f"{len(bad)} of {n} document orders: {why}: a correlation rule converted before a rule it refers to finds no conversion result", fi.loc)
+    else:
+        r.ok("C09.R1", fi.qual, f"interpreted on {n} document orders of five related rules (chain c2 → c1 → a, b; condition-only references), an unrelated rule and a filter: every rule once, each behind all rules it refers to", fi.loc)
 
 
 def r1_ordering(ctx) -> None:
